@@ -17,7 +17,7 @@ import (
 // C19.endpoint
 
 func (c *c19) ruleEndpoint() {
-	ru := c.r.Rule("C19.endpoint", "the stream factory builds client = (net.Src, transport.Src), server = (net.Dst, transport.Dst) with cloned addresses, big-endian ports, separate fresh buffers, registers the connection with its decoder; flowsdecoder.New wires a fresh assembler/defragmenter to the decoder it returns", 12)
+	ru := c.r.Rule("C19.endpoint", "the stream factory builds client = (net.Src, transport.Src), server = (net.Dst, transport.Dst) with cloned addresses, big-endian ports, separate fresh buffers, registers the connection with its decoder; flowsdecoder.New wires a fresh assembler/defragmenter to the decoder it returns; the port is decoded exactly when the transport endpoint is 2 bytes (read through helpers of the package); the option checker is installed only on request; every new connection is registered", 14)
 	fn := getFn(ru, c.p, "(*"+c19FD+".Decoder).New")
 	tconn := c.p.NamedType(c19FD, "TCPConnection")
 	tdir := c.p.NamedType(c19FD, "TCPDirection")
@@ -87,8 +87,8 @@ func (c *c19) ruleEndpoint() {
 				if port == nil {
 					ru.Fail(k+":"+side.field+".Port", c.pos(sts[0]), "the "+side.field+" endpoint's Port is not set")
 				} else {
-					g := c.sig(port)
-					ru.Check(g == wantPort || g == wantPort2, k+":"+side.field+".Port", c.pos(sts[0]), "Port = "+g, "Port is "+g+", expected "+wantPort+" (transport flow "+side.flowFn+" port, big endian)")
+					why := c.portExpr(port, wantPort2, raw(2))
+					ru.Check(why == "", k+":"+side.field+".Port", c.pos(sts[0]), "Port = "+wantPort, "Port: "+why+"; expected "+wantPort+" with the decoded value chosen exactly when the transport endpoint is 2 bytes long (transport flow "+side.flowFn+" port, big endian)")
 				}
 				if buf == nil {
 					ru.Fail(k+":"+side.field+".Buffer", c.pos(sts[0]), "the "+side.field+" direction has no Buffer: ReassembledSG would dereference nil")
@@ -126,8 +126,23 @@ func (c *c19) ruleEndpoint() {
 				}
 			}
 			ru.Check(okFSM, k+":fsm", c.pos(fn), "tcpState = NewTCPSimpleFSM{SupportMissingEstablishment: true}", "the connection FSM is not created with SupportMissingEstablishment: true: captures that start mid-connection are rejected segment by segment")
+			// option checker: only on request
+			okOpt, whyOpt := true, ""
+			for _, st := range ci.fields[fidx(tconn, "optChecker")] {
+				gated := false
+				for _, cd := range c19structConds(st.Block()) {
+					if cd.t && c.sig(cd.v) == "param#0.Options.CheckTCPOptions" {
+						gated = true
+					}
+				}
+				if !gated {
+					okOpt, whyOpt = false, c.pos(st)
+				}
+			}
+			ru.Check(okOpt, k+":optcheck-gated", c.pos(fn), "gopacket's TCP option checker is installed only when Options.CheckTCPOptions is set", "the TCP option checker is installed ("+whyOpt+") without Options.CheckTCPOptions being true: with it gopacket rejects segments larger than the announced MSS or with stale timestamps, their bytes are missing from the stream")
 			// registration
 			reg := false
+			var regCond []string
 			fw.EachInstr(fn, func(ins ssa.Instruction) {
 				st, ok := ins.(*ssa.Store)
 				if !ok {
@@ -138,11 +153,20 @@ func (c *c19) ruleEndpoint() {
 						old, okOld := c19loadOfField(ap.Common().Args[0], tdec, "TCPConnections")
 						if okOld && old == ssa.Value(fn.Params[0]) && c.sliceHas(ap.Common().Args[1], conn) {
 							reg = true
+							for _, cd := range c19structConds(st.Block()) {
+								regCond = append(regCond, c.sig(cd.v))
+							}
+							if len(regCond) == 0 && c19skippable(st, nil) {
+								regCond = append(regCond, "a condition on some path (New can return without registering)")
+							}
 						}
 					}
 				}
 			})
 			ru.Check(reg, k+":registered", c.pos(fn), "the connection is appended to fd.TCPConnections", "the new connection is not appended to the receiver's TCPConnections: it never shows up in tcp_connections")
+			if reg {
+				ru.Check(len(regCond) == 0, k+":registered-always", c.pos(fn), "every new connection is registered", "the connection is registered only when "+strings.Join(regCond, " ; ")+": other connections (no handshake in the capture, no payload ...) never show up in tcp_connections although the assembler delivers their data")
+			}
 		}
 	}
 	// flowsdecoder.New
@@ -221,7 +245,7 @@ func (c *c19) sliceHas(v ssa.Value, want ssa.Value) bool {
 // C19.defrag
 
 func (c *c19) ruleDefrag() {
-	ru := c.r.Rule("C19.defrag", "packet(): the IPv4 layer goes through the decoder's defragmenter before any TCP layer is looked up; a datagram counts as reassembled when the defragmenter's result differs in Length from the fragment handed in; it is then serialised (payload, then header with fixed lengths/checksums), recorded with src/dst and re-decoded into the packet; TCP goes to the decoder's assembler with the packet's network flow", 17)
+	ru := c.r.Rule("C19.defrag", "packet(): the IPv4 layer goes through the decoder's defragmenter before any TCP layer is looked up; a datagram counts as reassembled when the defragmenter's result differs in Length from the fragment handed in; it is then serialised (payload, then header with fixed lengths/checksums), recorded with src/dst and re-decoded into the packet; every packet with a TCP layer (and only those) goes to the decoder's assembler with the packet's network flow", 18)
 	fn := getFn(ru, c.p, "(*"+c19FD+".Decoder).packet")
 	tdec := c.p.NamedType(c19FD, "Decoder")
 	trec := c.p.NamedType(c19FD, "IPV4Reassembled")
@@ -269,6 +293,16 @@ func (c *c19) ruleDefrag() {
 		}
 	}
 	ru.Check(okGuard, k+":assemble-guard", c.pos(as), "only packets with a TCP layer are assembled", "Assemble is not guarded by p.Layer(LayerTypeTCP) != nil")
+	extraAsm := c.otherCondsIn(c19structConds(as.Block()), map[ssa.Value]bool{ssa.Value(lt[0]): true}, nil)
+	if extraAsm == "" && c19skippable(as, func(v ssa.Value) (bool, bool) {
+		if bo, ok := v.(*ssa.BinOp); ok && (bo.Op == token.NEQ || bo.Op == token.EQL) && ((bo.X == ssa.Value(lt[0]) && isNilConst(bo.Y)) || (bo.Y == ssa.Value(lt[0]) && isNilConst(bo.X))) {
+			return bo.Op == token.NEQ, true
+		}
+		return c19assumeNoError(v)
+	}) {
+		extraAsm = "a condition on some path (packet() can complete without Assemble although the packet has a TCP layer)"
+	}
+	ru.Check(extraAsm == "", k+":assemble-always", c.pos(as), "every packet with a TCP layer is handed to the assembler", "Assemble additionally depends on "+extraAsm+": TCP segments for which it does not hold (other network layer, empty payload ...) never reach the assembler")
 	// order: defrag strictly before the TCP layer lookup
 	ru.Check(c19blockReaches(df.Block(), lt[0].Block(), nil) || df.Block() == lt[0].Block() && instrIndex(df) < instrIndex(lt[0]), k+":defrag-then-tcp", c.pos(lt[0]),
 		"TCP layer is looked up after defragmentation", "the TCP layer lookup cannot follow DefragIPv4")
@@ -486,8 +520,12 @@ func (c *c19) sigOrNone(v ssa.Value) string {
 // otherConds lists dominating conditions of b that are not nil/non-nil tests of an allowed value
 // and are not accepted by the extra predicate.
 func (c *c19) otherConds(b *ssa.BasicBlock, allowed map[ssa.Value]bool, extra func(*ssa.BinOp) bool) string {
+	return c.otherCondsIn(c19condsAt(b), allowed, extra)
+}
+
+func (c *c19) otherCondsIn(conds []c19cond, allowed map[ssa.Value]bool, extra func(*ssa.BinOp) bool) string {
 	var out []string
-	for _, cd := range c19condsAt(b) {
+	for _, cd := range conds {
 		if ex, ok := cd.v.(*ssa.Extract); ok {
 			if _, ok := ex.Tuple.(*ssa.TypeAssert); ok {
 				continue // comma-ok of a type assertion
